@@ -1,4 +1,4 @@
-import FrappyProofs.Lemmas.LifecycleWrites
+import FrappyProofs.Lemmas.LifecycleGroups
 import FrappyProofs.Lemmas.MultiEvent
 import FrappyModel.Generated.C15
 /-
@@ -11,16 +11,16 @@ topological numbering); `shutdown_phase_order`, `shutdown_order_whole_run` (reso
 `init_order_once_partial` (one early, one init, in order, for every initialised module of a node that came up; every
 module of the creation loop initialised; the start phase logs exactly the start loop); `ready_only_after_first_round`.
 Start-up faults (any exception in `write_<p>`, `initialReads`, the first polls): `write_faults_lose_no_write`,
-`startup_sequence_complete`, `writes_precede_polls_in_prologue`, `no_write_after_first_poll` (whole run, any faults,
-assumes `UniqueOwner`), `writes_before_first_poll_partial` / `_groups` (exactly once and before the first poll; no
-communication failure in the initial reads of the thread); `comm_failure_skips_writes` proves the recorded finding.
+`startup_sequence_complete`, `writes_precede_polls_in_prologue`, `no_write_after_first_poll` (full: whole run, any
+faults, no hypothesis), `writes_before_first_poll_partial` (exactly once and before the first poll; no communication
+failure in the initial reads of the thread); `comm_failure_skips_writes` proves the recorded finding.
 Kept as `…_statement` (not proved; evidence = correspondence run + monitors): `init_order_once_statement`,
 `bad_attachment_reported_statement` (its second half is `no_half_start`), `writes_before_first_poll_statement`
 (false on the code that exists: the finding), `shutdown_order_statement` (declared instead of resolved attachments).
 -/
 namespace Frappy.Proofs.C15
 open Frappy.Lifecycle Frappy.Spec.C15 Frappy.Proofs.Lifecycle Frappy.Proofs.LifecycleInit Frappy.Proofs.LifecycleWait
-  Frappy.Proofs.LifecycleWrites
+  Frappy.Proofs.LifecycleWrites Frappy.Proofs.LifecycleGroups
 
 /-- a finite graph on `mods` is acyclic: it has a topological numbering (with numbers up to the number of modules —
 the length of the longest path) -/
@@ -224,51 +224,37 @@ def writes_before_first_poll_statement : Prop :=
     r.st.oof = false → r.st.errors = [] →
     WritesBeforeFirstPoll ((allMods cfg r.st.ioDict).filter (fun c => r.st.modules.contains c.name)) r.log
 
-/-- "configured start values are written before the first poll", order part, for the whole life of the node: every
-configuration, every fuel, **every schedule** of start loop / poll threads / clock, every choice function, and **any
-faults** in writes, initial reads and first polls (communication failures included) — no configured value of a module
-is written after the first poll of that module.  Assumed: every module is served by one poll thread (`UniqueOwner`:
-`polledModules` registers a module once — true of every node of the correspondence run; the invariant of `get_module`
-behind it is not proved). -/
+/-- "configured start values are written before the first poll", order part, **full**: in the whole life of the node —
+every configuration (any attachment graph, shared communicators, Pinatas), every fuel, **every schedule** of start loop /
+poll threads / clock, every choice function, and **any faults** in writes, initial reads and first polls (communication
+failures included) — no configured value of a module is written after the first poll of that module.  (Behind it:
+`startup_groupsOk`, the invariant of `get_module` that no module is registered twice for polling, so every module is
+served by one poll thread; `OI`, the invariant of the start phase under every schedule.) -/
 theorem no_write_after_first_poll (cfg : Cfg) (fuel : Nat) (sched : List Act) (pick : List Name → Nat)
-    (hU : UniqueOwner (run cfg fuel sched pick).st) (m : Name) (p : String) :
-    NeverAfter (· == Ev.firstpoll m) (· == Ev.write m p) (run cfg fuel sched pick).log := by
-  rw [(run_log cfg fuel sched pick).1] at hU
-  exact run_write_order cfg fuel sched pick hU m p
+    (m : Name) (p : String) :
+    NeverAfter (· == Ev.firstpoll m) (· == Ev.write m p) (run cfg fuel sched pick).log :=
+  run_write_order cfg fuel sched pick (uniqueOwner_of_groupsOk _ (startup_groupsOk cfg fuel)) m p
 
 /-- proved part of `writes_before_first_poll_statement` (whole life of a node that came up; every schedule and choice
 function; any faults in the writes and any exception but a communication failure in the initial reads of the thread):
 a configured value `p` of a module `m` served by poll thread `t` is handed to `write_<p>` exactly once in the whole
-log, and never after the first poll of `m`.  Missing for the full statement: (1) `UniqueOwner` and "no module twice in
-`polledModules`" as proved invariants of the initialisation phase (assumed here); (2) the link between the Spec's
-`allMods` and the module objects of the node (`cfgOf`); (3) threads whose start-up sequence is broken off by a
-communication failure do **not** satisfy the clause for the members behind the failure — `comm_failure_skips_writes`
-(recorded finding). -/
+log, and never after the first poll of `m`.  Missing for the full statement: (1) the link between the Spec's `allMods`
+and the module objects of the node (`cfgOf`, `members`); (2) threads whose start-up sequence is broken off by a
+communication failure do **not** satisfy "exactly once" for the members behind the failure — `comm_failure_skips_writes`
+(recorded finding), so the full statement is false of the code that exists. -/
 theorem writes_before_first_poll_partial (cfg : Cfg) (fuel : Nat) (sched : List Act) (pick : List Name → Nat)
     (herr : (run cfg fuel sched pick).st.errors = [])
-    (hU : UniqueOwner (run cfg fuel sched pick).st)
-    (t m : Name) (p : String) (ht : t ∈ threadsOf (run cfg fuel sched pick).st)
-    (hm : m ∈ members (run cfg fuel sched pick).st t) (hnd : (members (run cfg fuel sched pick).st t).Nodup)
-    (hq : ∀ x ∈ members (run cfg fuel sched pick).st t, readsQuiet (objOf (run cfg fuel sched pick).st x))
-    (hp : (cfgOf (run cfg fuel sched pick).st m).writes.count p = 1) :
-    (run cfg fuel sched pick).log.count (Ev.write m p) = 1 ∧
-    NeverAfter (· == Ev.firstpoll m) (· == Ev.write m p) (run cfg fuel sched pick).log := by
-  refine ⟨?_, no_write_after_first_poll cfg fuel sched pick hU m p⟩
-  rw [(run_log cfg fuel sched pick).1] at herr hU ht hm hnd hq hp
-  rw [run_write_count cfg fuel sched pick herr hU t m p ht hm hnd hq, hp]
-
-/-- the same with the one decidable hypothesis `GroupsOk` ("no module twice in any `polledModules`") in place of
-`UniqueOwner` and `Nodup` -/
-theorem writes_before_first_poll_groups (cfg : Cfg) (fuel : Nat) (sched : List Act) (pick : List Name → Nat)
-    (herr : (run cfg fuel sched pick).st.errors = []) (hG : GroupsOk (run cfg fuel sched pick).st)
     (t m : Name) (p : String) (ht : t ∈ threadsOf (run cfg fuel sched pick).st)
     (hm : m ∈ members (run cfg fuel sched pick).st t)
     (hq : ∀ x ∈ members (run cfg fuel sched pick).st t, readsQuiet (objOf (run cfg fuel sched pick).st x))
     (hp : (cfgOf (run cfg fuel sched pick).st m).writes.count p = 1) :
     (run cfg fuel sched pick).log.count (Ev.write m p) = 1 ∧
-    NeverAfter (· == Ev.firstpoll m) (· == Ev.write m p) (run cfg fuel sched pick).log :=
-  writes_before_first_poll_partial cfg fuel sched pick herr (uniqueOwner_of_groupsOk _ hG) t m p ht hm
-    (members_nodup_of_groupsOk _ hG t) hq hp
+    NeverAfter (· == Ev.firstpoll m) (· == Ev.write m p) (run cfg fuel sched pick).log := by
+  refine ⟨?_, no_write_after_first_poll cfg fuel sched pick m p⟩
+  rw [(run_log cfg fuel sched pick).1] at herr ht hm hq hp
+  have hG := startup_groupsOk cfg fuel
+  rw [run_write_count cfg fuel sched pick herr (uniqueOwner_of_groupsOk _ hG) t m p ht hm
+    (members_nodup_of_groupsOk _ hG t) hq, hp]
 
 /-- the hypotheses are met by a node with a Pinata, a shared communicator, a failing write and a failing (not
 communication) initial read, under a schedule that preempts the start loop -/
@@ -278,12 +264,16 @@ def wpC : ModCfg := { (default : ModCfg) with name := "c", cls := .comm, poll :=
 def wpCfg : Cfg := { mods := [wpU, wpV, wpC], dyn := [] }
 
 example : (run wpCfg 20 [.main, .main, .step "c"] (fun _ => 0)).st.errors = [] ∧
-    GroupsOk (run wpCfg 20 [.main, .main, .step "c"] (fun _ => 0)).st ∧
     "c" ∈ threadsOf (run wpCfg 20 [.main, .main, .step "c"] (fun _ => 0)).st ∧
     "v" ∈ members (run wpCfg 20 [.main, .main, .step "c"] (fun _ => 0)).st "c" ∧
     (∀ x ∈ members (run wpCfg 20 [.main, .main, .step "c"] (fun _ => 0)).st "c",
       readsQuiet (objOf (run wpCfg 20 [.main, .main, .step "c"] (fun _ => 0)).st x)) ∧
     (cfgOf (run wpCfg 20 [.main, .main, .step "c"] (fun _ => 0)).st "u").writes.count "w1" = 1 := by
+  decide +kernel
+
+/-- the order theorem speaks about something: in that run a value is written and its module is polled -/
+example : Ev.write "u" "w1" ∈ (run wpCfg 20 [.main, .main, .step "c"] (fun _ => 0)).log ∧
+    Ev.firstpoll "u" ∈ (run wpCfg 20 [.main, .main, .step "c"] (fun _ => 0)).log := by
   decide +kernel
 
 /-- start-up faults, the loop of `writeInitParams`: for every module object and **every** assignment of exceptions to its
